@@ -22,13 +22,21 @@ type C07Case struct {
 	S refsel.Sel  `json:"selector"`
 }
 
-func genGraphSel(t *rapid.T, depth int) C07Case {
+func genGraphSel(t *rapid.T, depth int) C07Case { return genGraphSelOpt(t, depth, false) }
+
+// genGraphSelOpt: with aliases, some links address a block's bytes under the raw codec (same multihash, another
+// CID: it loads as a bytes leaf), and stop-at conditions may name either address.
+func genGraphSelOpt(t *rapid.T, depth int, aliases bool) C07Case {
 	o := graph.DefaultOpts()
 	o.LinkHeavy = rapid.Bool().Draw(t, "linkheavy")
+	o.RawAliases = aliases
 	g := graph.Draw(t, o)
 	var links []string
 	for _, b := range g.Blocks {
 		links = append(links, graph.CidOf(b))
+		if aliases {
+			links = append(links, graph.RawCidOf(b))
+		}
 	}
 	seen := map[string]bool{}
 	var names []string
@@ -126,6 +134,12 @@ func c07Check(c C07Case, rec *evid.Rec) error {
 	if len(wantMatches) > 0 {
 		cls = append(cls, "has-match")
 	}
+	for _, l := range want.Loads {
+		if len(l) > 1 && l[1] == 0x55 {
+			cls = append(cls, "crossed-raw-alias-link")
+			break
+		}
+	}
 	b, _ := jsonMarshal(c)
 	rec.Case(val.HashBytes(b), nt, cls...)
 	if nt && rec.WantSample() && len(b) < 2500 {
@@ -136,8 +150,8 @@ func c07Check(c C07Case, rec *evid.Rec) error {
 
 var c07Part = evid.Part[C07Case]{
 	Prop: "C07", Name: "walk", Quick: 4000, Thorough: 1600000,
-	Rule:  "selector AST (all clause kinds, nested ≤5, constraints of DESIGN Appendix A) × block graph (≤5 blocks, shared/repeated links), compiled from its spec and through the builder package, WalkAdv and WalkMatching; non-trivial = ≥3 visits and (≥2 clause kinds, or a recursive edge actually followed, or a link crossed); distinct by (graph, selector)",
-	Gen:   func(t *rapid.T) C07Case { return genGraphSel(t, rapid.IntRange(1, 5).Draw(t, "seldepth")) },
+	Rule:  "selector AST (all clause kinds, nested ≤5, constraints of DESIGN Appendix A) × block graph (≤5 blocks, shared/repeated links, some links addressing a block's bytes under the raw codec: same multihash, other CID), compiled from its spec and through the builder package, WalkAdv and WalkMatching; non-trivial = ≥3 visits and (≥2 clause kinds, or a recursive edge actually followed, or a link crossed); distinct by (graph, selector)",
+	Gen:   func(t *rapid.T) C07Case { return genGraphSelOpt(t, rapid.IntRange(1, 5).Draw(t, "seldepth"), true) },
 	Check: c07Check,
 }.Reg()
 
